@@ -1536,6 +1536,41 @@ class Lowerer:
         v = e['value']
         if v.startswith('u8'):
             v = v[2:]
+        if v[:1] in ('u', 'U', 'L'):
+            # wide literal: spelled out as an array of code units (goto-cc does not give u"..." 16/32-bit elements)
+            t = self.ctype(e['type'])        # e.g. const char16_t[7]
+            et = t.deref() if t.is_array() else t
+            body = v[1:]
+            body = body[body.index('"') + 1:body.rindex('"')]
+            units, i = [], 0
+            esc = {'n': 10, 't': 9, 'r': 13, '0': 0, '\\': 92, '"': 34, "'": 39, 'a': 7, 'b': 8, 'f': 12, 'v': 11}
+            while i < len(body):
+                ch = body[i]
+                if ch == '\\':
+                    nx = body[i + 1]
+                    if nx == 'x':
+                        j = i + 2
+                        while j < len(body) and body[j] in '0123456789abcdefABCDEF':
+                            j += 1
+                        units.append(int(body[i + 2:j], 16)); i = j
+                    elif nx == 'u':
+                        units.append(int(body[i + 2:i + 6], 16)); i += 6
+                    elif nx == 'U':
+                        units.append(int(body[i + 2:i + 10], 16)); i += 10
+                    elif nx in esc:
+                        units.append(esc[nx]); i += 2
+                    else:
+                        raise LowerError('escape \\%s in wide string literal' % nx)
+                else:
+                    cp = ord(ch)
+                    if et.base == 'qx_char16' and cp > 0xFFFF:
+                        cp -= 0x10000
+                        units += [0xD800 | (cp >> 10), 0xDC00 | (cp & 0x3FF)]
+                    else:
+                        units.append(cp)
+                    i += 1
+            units.append(0)
+            return '((const %s[]){%s})' % (et.cast(), ', '.join(str(u) for u in units))
         return v
 
     def e_ImplicitValueInitExpr(self, e):
